@@ -251,6 +251,49 @@ def _chk_limit_empty_lines(ctx, px, items):
                   and n.func.attr in ("write", "_generate_with_line_buffer", "_filter_and_write_line")]
         if any(w.lineno < c.lineno for w in writes):
             problems.append(f"{q}: lines are written before {rname}()")
+    # the reset is dispatched on the object: every line processor class of the package must answer it for all the state its __call__
+    # depends on - its own attributes, and the processors it holds and applies (a composite that inherits the no-op reset of the base
+    # class shields its members from the per-file reset)
+    ppm = px.module("nunavut._postprocessors")
+    base = ppm.classes.get("LinePostProcessor")
+    for k in (base.all_subs() if base is not None else []):
+        call = k.methods.get("__call__")
+        if call is None:
+            continue
+        written = {n_.targets[0].attr if isinstance(n_, ast.Assign) else n_.target.attr for n_ in ast.walk(call.node)
+                   if (isinstance(n_, ast.Assign) and isinstance(n_.targets[0], ast.Attribute) and ast.unparse(n_.targets[0].value) == "self")
+                   or (isinstance(n_, ast.AugAssign) and isinstance(n_.target, ast.Attribute) and ast.unparse(n_.target.value) == "self")}
+        held = set()
+        for lp in ast.walk(call.node):
+            if isinstance(lp, ast.For) and isinstance(lp.target, ast.Name) and isinstance(lp.iter, ast.Attribute) and ast.unparse(lp.iter.value) == "self" \
+                    and any(isinstance(c_, ast.Call) and isinstance(c_.func, ast.Name) and c_.func.id == lp.target.id for c_ in ast.walk(lp)):
+                held.add(lp.iter.attr)
+        for c_ in ast.walk(call.node):
+            if isinstance(c_, ast.Call) and isinstance(c_.func, ast.Attribute) and ast.unparse(c_.func.value) == "self" and c_.func.attr not in k.methods \
+                    and k.mro_lookup(c_.func.attr) is None:
+                held.add(c_.func.attr)      # self.inner(line): an attribute that is applied like a processor
+        if not written and not held:
+            continue
+        r_ = k.mro_lookup(rname)
+        if r_ is None:
+            problems.append(f"{k.name} has no {rname}()")
+            continue
+        reinit = {n_.targets[0].attr for n_ in ast.walk(r_.node) if isinstance(n_, ast.Assign) and isinstance(n_.targets[0], ast.Attribute)
+                  and ast.unparse(n_.targets[0].value) == "self"}
+        forwarded = set()
+        for lp in ast.walk(r_.node):
+            if isinstance(lp, ast.For) and isinstance(lp.target, ast.Name) and isinstance(lp.iter, ast.Attribute) and ast.unparse(lp.iter.value) == "self" \
+                    and any(isinstance(c_, ast.Call) and isinstance(c_.func, ast.Attribute) and c_.func.attr == rname and ast.unparse(c_.func.value) == lp.target.id
+                            for c_ in ast.walk(lp)) and not any(isinstance(x, (ast.If, ast.Break, ast.Continue)) for x in ast.walk(lp)):
+                forwarded.add(lp.iter.attr)
+        for c_ in ast.walk(r_.node):
+            if isinstance(c_, ast.Call) and isinstance(c_.func, ast.Attribute) and c_.func.attr == rname and isinstance(c_.func.value, ast.Attribute) \
+                    and ast.unparse(c_.func.value.value) == "self":
+                forwarded.add(c_.func.value.attr)
+        miss = sorted((written - reinit) | {f"{h} (held processors)" for h in held - forwarded})
+        if miss:
+            problems.append(f"{k.name}.{rname}() (defined in {r_.cls.name if r_.cls else '?'}) does not cover {miss}: the per-file reset reaches this object but not "
+                            "that state, which is carried from the end of one generated file into the next")
     if problems:
         return False, "; ".join(problems)
     return True, f"every line processor is {rname}() at the start of each file, before the first line"
